@@ -326,6 +326,78 @@ def h_agg(nu: int, ns: int, no: int, ni: int) -> bool:
     return ok
 
 
+# ---- database level: missing file, unknown compiler, unknown option ---------------------------
+
+DB_KINDS = ["ok", "missing-file", "unknown-compiler", "unknown-option", "two-unknown-options", "unknown-compiler-and-option"]
+
+
+def h_db(k1: int, k2: int) -> bool:
+    """
+    pre: 0 <= k1 < 6 and 0 <= k2 < 6
+    post: _
+    """
+    import codebasin
+    import codebasin.config as config
+
+    ks = []
+    for v in (k1, k2):
+        for j in range(6):
+            if v == j:
+                ks.append(j)
+    STATS["compared"] += 1
+    if P.get("_twin"):
+        return False
+    why = None
+    with scen.untraced():
+        fs = scen.build_fs({"/r/a.c": ["@"], "/r/b.c": ["@"]})
+        db = []
+        expect = []  # (substring that must be named, count)
+        for i, k in enumerate(ks):
+            f = "a.c" if i == 0 else "b.c"
+            kind = DB_KINDS[k]
+            cc = "gcc"
+            flags = ["-DX", "-c"]
+            if kind == "missing-file":
+                f = "gone%d.c" % i
+                expect.append(("gone%d.c" % i, 1))
+            if kind in ("unknown-compiler", "unknown-compiler-and-option"):
+                cc = "/opt/bin/weirdcc%d" % i
+                expect.append(("weirdcc%d" % i, 1))
+            if kind in ("unknown-option", "unknown-compiler-and-option"):
+                flags = ["-fweird%d" % i] + flags
+                expect.append(("-fweird%d" % i, 1))
+            if kind == "two-unknown-options":
+                flags = ["-fweird%d" % i, "--param", "-fother%d" % i] + flags
+                expect.append(("-fweird%d" % i, 1))
+                expect.append(("-fother%d" % i, 1))
+            db.append({"directory": "/r", "file": f, "arguments": [cc] + flags + [f]})
+        old = codebasin.CompilationDatabase.from_file
+        codebasin.CompilationDatabase.from_file = classmethod(lambda cls, path: cls.from_json(db))
+        try:
+            config._compilers = None  # fresh compiler table: 'Compiler ... not recognized' must not depend on history
+            with memfs.mounted(fs) as rec:
+                entries = config.load_database("/r/cc.json", "/r")
+            warns = rec.warnings()
+            for sub, n in expect:
+                got = len([w for w in warns if sub in w])
+                if got != n:
+                    why = "%d warnings name %r, expected %d: %s" % (got, sub, n, warns)
+                    break
+            if why is None and not expect and [w for w in warns]:
+                why = "fully honoured input produced warnings: %s" % warns
+            if why is None:
+                named = sum(n for _s, n in expect)
+                if len(warns) > named + (1 if not entries else 0):
+                    why = "more warnings (%d) than unhonoured items (%d): %s" % (len(warns), named, warns)
+        except Exception as e:
+            why = "exception " + repr(e)
+        finally:
+            codebasin.CompilationDatabase.from_file = old
+    if P.get("_replay"):
+        LAST.update(kinds=[DB_KINDS[k] for k in ks], why=why)
+    return why is None
+
+
 def replay(obd, cex):
     import sys
 
@@ -399,6 +471,7 @@ def obligations(tier, known):
                       timeout=120, expect="witness:C18-forced-include-missing", group="witness"))
     else:
         obs.append(Ob(id="forced/missing", kind="ch", module=__name__, func="h_forced", params={}, timeout=120, group="forced"))
+    obs.append(Ob(id="db/entries", kind="ch", module=__name__, func="h_db", params={}, timeout=300, group="db"))
     obs.append(Ob(id="agg/counts", kind="ch", module=__name__, func="h_agg", params=dict(n=3 if tier == "quick" else 5),
                   timeout=300, group="agg"))
     return obs
@@ -408,4 +481,4 @@ CLAIM = ("Within the bounds, for every existence pattern the warnings the real c
          "name, form) the unresolvable includes a reference preprocessor reaches; unknown directives and missing forced includes "
          "are reported once each; the aggregator's printed totals equal the numbers of records it saw, for all counts in range.")
 LEVEL_NOTE = ("Trusted: CrossHair/z3, vp/memfs.py, vp/refs/ref_cpp.py. Bounded: 3 include templates, a 22-name directive "
-              "catalogue, 0..3/5 records per category. Database-level warnings are covered in C13/C11's checks.")
+              "catalogue, 0..3/5 records per category. Database-level warnings: db/ (2 entries x 6 kinds).")
